@@ -50,7 +50,7 @@ Print Assumptions C15_http_sites_never_tls.
 
 Example C15_http_sites_never_tls_nonvacuous :
   exists init, init_sites [w_http_tls] = Some init /\ forallb addr_agrees [w_http_tls] = true /\
-    map (fun s => en (tls s)) (stage_a init) = [true; false] /\ map (fun s => en (tls s)) (pipeline init) = [false; false].
+    map (fun s => en (tls s)) (stage_a init) = [true] /\ map (fun s => en (tls s)) (pipeline init) = [false].
 Proof. eexists. split; [vm_compute; reflexivity|]. repeat split; vm_compute; reflexivity. Qed.
 
 (* a declaration is plain HTTP (http://, :80, :http) exactly when its parsed address has scheme
@@ -64,15 +64,17 @@ Print Assumptions C15_declared_http_iff_parsed.
 (* ---- redirect synthesis ---- *)
 
 (* soundness, for EVERY site list: makePlaintextRedirects only appends, and each appended site is a
-   plain-HTTP :80 site for the host of a TLS-enabled site without no_redirect that has no other site
-   of its host on :80; it redirects to that site's port, omitted when it is 443 *)
+   plain-HTTP :80 site for the host of a TLS-enabled site without no_redirect, not itself declared
+   as plain HTTP (port 80 / scheme http), that has no other site of its host on :80; it redirects
+   to that site's port, omitted when it is 443 *)
 Theorem C15_redirect_sound :
   forall all, exists extra, make_plaintext_redirects all = all ++ extra /\
     forall r, In r extra ->
       exists j c, nth_error all j = Some c /\ host r = host c /\ listen r = listen c /\
         port r = P80 /\ scheme r = [] /\ en (tls r) = false /\ mg (tls r) = false /\
         redir r = Some (if beq (port c) P443 then [] else port c) /\
-        en (tls c) = true /\ nr (tls c) = false /\ host_has_other_port all j P80 = false.
+        en (tls c) = true /\ nr (tls c) = false /\ port c <> P80 /\ scheme c <> HTTP /\
+        host_has_other_port all j P80 = false.
 Proof. exact redirects_sound. Qed.
 Print Assumptions C15_redirect_sound.
 
@@ -82,11 +84,13 @@ Theorem C15_redirect_one_per_host :
 Proof. exact redirects_unique. Qed.
 Print Assumptions C15_redirect_one_per_host.
 
-(* completeness: a TLS-enabled site without no_redirect and without another site of its host on :80
-   gets a redirect site for its host, PROVIDED it is on :443 or no other site of its host is *)
+(* completeness: a TLS-enabled site (not declared as plain HTTP) without no_redirect and without
+   another site of its host on :80 gets a redirect site for its host, PROVIDED it is on :443 or no
+   other site of its host is *)
 Theorem C15_redirect_complete_partial :
   forall all j c, nth_error all j = Some c ->
-  en (tls c) = true -> nr (tls c) = false -> host_has_other_port all j P80 = false ->
+  en (tls c) = true -> nr (tls c) = false -> port c <> P80 -> scheme c <> HTTP ->
+  host_has_other_port all j P80 = false ->
   (port c = P443 \/ host_has_other_port all j P443 = false) ->
   exists extra, make_plaintext_redirects all = all ++ extra /\
     exists r, In r extra /\ host r = host c /\ port r = P80.
@@ -107,51 +111,63 @@ Theorem C15_redirect_complete_refuted :
 Proof. exact redirect_complete_refuted. Qed.
 Print Assumptions C15_redirect_complete_refuted.
 
-(* "no synthesised redirect points back at an HTTP address": false as stated (F-C15-1) ... *)
-Theorem C15_redirect_never_to_http_port_refuted :
-  exists ds init, init_sites ds = Some init /\ forallb addr_agrees ds = true /\
-    exists r, In r (pipeline init) /\ is_synth r = true /\ host r = bs "example.com" /\ redir r = Some P80.
-Proof. exact redirect_never_to_http_port_refuted. Qed.
-Print Assumptions C15_redirect_never_to_http_port_refuted.
-
-(* ... true for every site list in which no TLS-enabled site sits on port 80 ... *)
-Theorem C15_redirect_never_to_http_port_partial :
-  forall all, (forall c, In c all -> en (tls c) = true -> port c <> P80) ->
-  exists extra, make_plaintext_redirects all = all ++ extra /\
+(* "no synthesised redirect points back at an HTTP address", for EVERY site list: no redirect names
+   the HTTP port ...  (F-C15-1, fixed: http://example.com { tls ... } used to get a redirect site
+   whose Location was https://example.com:80/...) *)
+Theorem C15_redirect_never_to_http_port :
+  forall all, exists extra, make_plaintext_redirects all = all ++ extra /\
     forall r, In r extra -> exists p, redir r = Some p /\ p <> P80.
-Proof. exact redirects_never_http_port_partial. Qed.
-Print Assumptions C15_redirect_never_to_http_port_partial.
+Proof. exact redirects_never_http_port. Qed.
+Print Assumptions C15_redirect_never_to_http_port.
 
-(* ... which is the case whenever no plain-HTTP declaration carries a tls directive that enables TLS *)
-Theorem C15_redirect_never_to_http_port_decl_partial :
-  forall ds init, init_sites ds = Some init -> forallb addr_agrees ds = true ->
-  (forall d t, In d ds -> declared_http d = true -> tls_setup (d_tls d) = Some t -> en t = false) ->
-  forall c, In c (map after_callback init) -> en (tls c) = true -> port c <> P80.
-Proof. exact pipeline_redirects_never_http_port. Qed.
-Print Assumptions C15_redirect_never_to_http_port_decl_partial.
+(* ... and the site each redirect points to is still an HTTPS site after MakeServers (TLS enabled,
+   not on port 80, scheme not http, no no_redirect), on the same host and on the port the redirect
+   names (omitted for 443) *)
+Theorem C15_redirect_target_stays_https :
+  forall all, exists extra, make_plaintext_redirects all = all ++ extra /\
+    forall r, In r extra ->
+      exists j c, nth_error all j = Some c /\ host r = host (finish c) /\ redir r = Some (redir_port c) /\
+        https_site (finish c) = true /\ nr (tls (finish c)) = false.
+Proof. exact redirects_target_stays_https. Qed.
+Print Assumptions C15_redirect_target_stays_https.
+
+(* the former counterexample: nothing is synthesised for a plain-HTTP declaration with a tls directive *)
+Example C15_redirect_never_to_http_port_nonvacuous :
+  exists init, init_sites [w_http_tls] = Some init /\ forallb addr_agrees [w_http_tls] = true /\
+    map redir (pipeline init) = [None] /\
+  exists init', init_sites [w_alt] = Some init' /\ map redir (pipeline init') = [None; Some (bs "8443")].
+Proof. eexists. split; [vm_compute; reflexivity|]. split; [vm_compute; reflexivity|]. split; [vm_compute; reflexivity|].
+  eexists. split; vm_compute; reflexivity. Qed.
 
 (* ---- the redirect handler ---- *)
 
-(* for every host name h without colon/brackets, with or without a port in the Host header, every
-   redirect port and every request URI: Location = https:// h [:redirPort] uri *)
-Theorem C15_redirect_location_partial :
-  forall rport h p uri, plain h -> plain p ->
+(* for every host h — a name (no colon, no brackets) or a bracketed IPv6 literal —, with or without
+   a port in the Host header, every redirect port and every request URI:
+   Location = https:// h [:redirPort] uri, brackets kept  (F-C15-3, fixed: bracketed literals used
+   to lose their brackets or get a second pair) *)
+Theorem C15_redirect_location :
+  forall rport h p uri, host_token h -> plain p ->
   redir_location rport h uri = hex_escape_non_ascii (bs "https://" ++ h ++ port_part rport ++ uri) /\
   redir_location rport (h ++ COLON :: p) uri = hex_escape_non_ascii (bs "https://" ++ h ++ port_part rport ++ uri).
-Proof. exact redir_location_partial. Qed.
-Print Assumptions C15_redirect_location_partial.
+Proof. exact redir_location_full. Qed.
+Print Assumptions C15_redirect_location.
+
+(* the two requests that used to be mangled *)
+Example C15_redirect_location_nonvacuous :
+  host_token (bs "[::1]") /\ plain (bs "80") /\
+  redir_location [] (bs "[::1]:80") (bs "/x") = bs "https://[::1]/x" /\
+  redir_location (bs "8443") (bs "[::1]") (bs "/x") = bs "https://[::1]:8443/x".
+Proof.
+  split; [right; exists (bs "::1"); split; [reflexivity|]; intros c Hc; simpl in Hc;
+          repeat (destruct Hc as [<-|Hc]; [split; discriminate|]); destruct Hc|].
+  split; [intros c Hc; simpl in Hc; repeat (destruct Hc as [<-|Hc]; [repeat split; discriminate|]); destruct Hc|].
+  split; vm_compute; reflexivity.
+Qed.
 
 Theorem C15_redirect_location_ascii_verbatim :
   forall s, (forall c, In c s -> c < 128) -> hex_escape_non_ascii s = s.
 Proof. exact hex_escape_ascii. Qed.
 Print Assumptions C15_redirect_location_ascii_verbatim.
-
-(* bracketed IPv6 Host headers are mangled (F-C15-3) *)
-Theorem C15_redirect_location_ipv6_refuted :
-  redir_location [] (bs "[::1]:80") (bs "/x") = bs "https://::1/x" /\
-  redir_location (bs "8443") (bs "[::1]") (bs "/x") = bs "https://[[::1]]:8443/x".
-Proof. exact redirect_location_ipv6_refuted. Qed.
-Print Assumptions C15_redirect_location_ipv6_refuted.
 
 (* ---- classifier lemmas ---- *)
 Theorem C15_ip_never_qualifies :
